@@ -15,21 +15,37 @@ TIERS = {
 RULE = ('case = one history of mutating/copying API calls from the full '
         'List/Dict/Object operation table plus constructor calls (pg.Dict / '
         'pg.List / pg.Object / pg.from_json in their calling forms, given nested '
-        'literals) applied at uniformly chosen nodes of a random forest (1-3 '
+        'literals or pre-built pg.Dict / pg.List members, acceptable or not) '
+        'applied at uniformly chosen nodes of a random forest (1-3 '
         'roots, typed and untyped, schema-bound containers with required keys / '
-        'size bounds whose members are symbolic nodes; operands fresh / aliased '
+        'size bounds whose members are symbolic nodes; keys of untyped dicts '
+        'include hostile legal ones: "", " ", "0" next to 0, "a.b", "[0]", the '
+        'printed path of another position, at the root and nested, in the forest, '
+        'in operands and as newly written keys; operands fresh / aliased '
         'node of the same or another tree / invalid / the SAME object at several '
-        'places of one call); tree_ok is evaluated after every step and after '
-        'every constructor of a shared operand. Non-trivial = at least 3 steps '
+        'places of one call / for typed slots the valid or deep-invalid value as '
+        'a PRE-BUILT symbolic container); tree_ok (paths compared as key '
+        'sequences) is evaluated after every step and after every constructor of '
+        'a shared operand; after every call (accepted or rejected, constructors '
+        'included) every symbolic object that was handed in and is not stored in '
+        'the forest must still be a well-formed tree of its own (no dangling '
+        'parent claim; no parent => empty path, children addressed relative to '
+        'it). Non-trivial = at least 3 steps '
         'returned normally and changed the forest; distinct by (operation-name '
         'sequence, final shape).')
 REQUIRED_COUNTERS = ['tree_ok_evals', 'steps_ok', 'steps_rejected',
                      'steps_shared_operand', 'ctor_checks',
-                     'rejected_on_typed_parent_of_nodes']
+                     'rejected_on_typed_parent_of_nodes', 'operand_checks',
+                     'rejected_steps_with_symbolic_operand',
+                     'steps_hostile_key', 'forests_with_hostile_key',
+                     'steps_prebuilt_for_typed_slot_rejected']
 ASSUMPTIONS = [
     'only public API is observed (sym_parent, sym_path, sym_items, sym_get, sym_root)',
     'self-containing values (a root inserted below itself) are not generated',
     'after a violation the forest is replaced by a deep clone and the history continues',
+    'an offered operand that a discarded temporary container (a converted plain '
+    'dict/list, a half-built typed pg.Dict/pg.List) adopted and really stores is '
+    'not judged further: the caller never saw that container',
 ]
 
 
@@ -66,6 +82,10 @@ def run_case(ctx, i):
   descs, forest = A.make_forest(rng)
   seen = {}
   c = ctx.counters
+  if any(k in A.HOSTILE_KEYS and not (isinstance(k, int) and k >= 0)
+         for _, _, n in H.all_nodes(forest) if isinstance(n, pg.Dict)
+         for k in n.sym_keys()):
+    c['forests_with_hostile_key'] += 1
   first = TM.tree_ok(forest, seen, c)
   c['tree_ok_evals'] += 1
   for clause, detail in first:
@@ -86,6 +106,13 @@ def run_case(ctx, i):
     if step.get('shared'):
       c['steps_shared_operand'] += 1
       c['shared:' + step['op']] += 1
+    if step.get('hostile'):
+      c['steps_hostile_key'] += 1
+      c['hostile:' + step['op']] += 1
+    if step.get('prebuilt'):
+      c['steps_prebuilt_for_typed_slot'] += 1
+      if status == 'raise':
+        c['steps_prebuilt_for_typed_slot_rejected'] += 1
     if status == 'ok':
       c['steps_ok'] += 1
     else:
@@ -130,6 +157,16 @@ def run_case(ctx, i):
         mech = A.mechanism(step, status,
                            decided and clause not in with_notify)
         ctx.violation(clause, mech, f'after step {len(trace)}: {trace[-1]}\n{detail}',
+                      {'forest': descs, 'history': trace[-12:]})
+    elif built.operand_findings:
+      # The forest is intact; an object that was handed to the call and is not
+      # stored anywhere is no longer a well-formed tree of its own.
+      per = collections.OrderedDict()
+      for clause, detail in built.operand_findings:
+        per.setdefault(clause, detail)
+      for clause, detail in per.items():
+        ctx.violation(clause, A.mechanism(step, status),
+                      f'after step {len(trace)}: {trace[-1]}\n{detail}',
                       {'forest': descs, 'history': trace[-12:]})
     if problems:
       forest[:] = heal(forest)
